@@ -206,7 +206,7 @@ def c11(**p):
 # ---------------------------------------------------------------------------
 # C10 semantics — accept/reject and denoted graph vs the reference reader, all numerals symbolic
 
-FORMULAS = [[("C", 1)], [("C", 2)], [("C", 2), ("H", 1)], [("H", 2), ("O", 1)], [("Br", 1), ("C", 1)],
+FORMULAS = [[("C", 1)], [("C", 2)], [("C", 2), ("H", 1)], [("H", 2), ("O", 1)], [("C", 1), ("Br", 1)],
             [("C", 1), ("H", 3), ("Cl", 1)], [("C", 11)], [], [("Cl", 2), ("Na", 1)]]
 
 
